@@ -146,6 +146,49 @@ def directed(ctx):
                 s = pipe.rs(rng, 2) + s
             reads.append((f"r{i}", s, "I" * len(s)))
         cases.append(dict(argv=argv, paired=False, reads1=reads, reads2=None, with_qual=True, interleaved_in=False))
+    # linked adapters on reads in which the parts occur in unusual places: the 3' part only to the *left* of the 5' part, both
+    # parts overlapping (adapter dimers), a part twice - "the 3' part is searched only in what remains after the 5' part"
+    pairs = [("AAAGGGCCC", "TTAGGCAT"), ("ACGGATTCAGGCTTA", "GCTTAGGACCATTGC"), ("GATTACA", "TGTAATC"), ("CCGGTTAAC", "CCGGTTAAC")]
+    for _ in range(ctx.scale(60, 800)):
+        f, b = rng.choice(pairs)
+        fa = rng.choice(["^", "", ""]) + f + rng.choice(["", ";required", ";optional"])
+        ba = b + rng.choice(["$", "", ""]) + rng.choice(["", ";required", ";optional"])
+        argv = ["--no-index", rng.choice(["-a", "-g"]), f"a0={fa}...{ba}"]
+        if rng.random() < 0.2:
+            argv += ["-a", "a1=GATTACAGA"]
+        if rng.random() < 0.2:
+            argv += ["--times", "2"]
+        argv += ["-o", "{dir}/o1.fastq"]
+        ov = 0
+        while ov < min(len(f), len(b)) and f[len(f) - ov - 1:] == b[:ov + 1]:
+            ov += 1
+        reads = []
+        for i in range(8):
+            fill = lambda a, z: pipe.rs(rng, rng.randint(a, z))
+            layout = rng.choice(["fb", "bf", "bfb", "dimer", "f", "b", "fbf", "b-in-f-tail"])
+            if layout == "fb":
+                s = f + fill(0, 6) + b
+            elif layout == "bf":
+                s = b + fill(0, 6) + f + fill(0, 5)
+            elif layout == "bfb":
+                s = b + fill(0, 4) + f + fill(0, 4) + b
+            elif layout == "dimer":
+                cut = rng.randint(1, max(1, min(len(f), len(b)) - 1))
+                s = f[: len(f) - cut] + b if rng.random() < 0.5 else f + b[cut:]
+            elif layout == "f":
+                s = f + fill(0, 8)
+            elif layout == "b":
+                s = fill(0, 8) + b
+            elif layout == "fbf":
+                s = f + fill(0, 3) + b + fill(0, 3) + f
+            else:
+                s = f[: rng.randint(1, len(f))] + b[rng.randint(0, 3):]
+            if not fa.startswith("^") and rng.random() < 0.3:
+                s = fill(1, 4) + s
+            if "$" not in ba and rng.random() < 0.3:
+                s = s + fill(1, 4)
+            reads.append((f"r{i}", s, "I" * len(s)))
+        cases.append(dict(argv=argv, paired=False, reads1=reads, reads2=None, with_qual=True, interleaved_in=False))
     return cases
 
 
